@@ -7,24 +7,25 @@ from harness import tlc, obs
 from harness.tlc import to_atoms, from_atoms, tla_seq as S
 
 SNIPS = {1: '\\n{q}', 2: '\\begin{w}u\\end{w}', 3: '{g}', 4: '$m$', 5: '\\a{x}', 6: '\\n{\\q{1}}'}
-OBS_NAMES = ['a', 'n', 'q', 'w', 'zz', 'item', 'e', 'kk*']
-ALL_KINDS = ['delete', 'replace_with', 'replace', 'remove', 'insert', 'append', 'rename', 'set_string', 'args_append', 'args_pop',
+OBS_NAMES = ['a', 'n', 'q', 'w', 'zz', 'item', 'e', 'kk*', '\\begin{e}', '\\begin{zz}', '\\end{zz}', '\\end{e}', '\\begin{itemize}']
+ALL_KINDS = ['args_swap', 'args_del', 'delete', 'replace_with', 'replace', 'remove', 'insert', 'append', 'rename', 'set_string', 'args_append', 'args_pop',
              'args_reverse', 'args_slice', 'args_insert', 'args_remove', 'args_clear']
 STRUCT = ['delete', 'replace_with', 'replace', 'remove', 'insert', 'append']
-PARTS = ['rename', 'set_string', 'args_append', 'args_pop', 'args_reverse', 'args_slice', 'args_insert', 'args_remove', 'args_clear']
+PARTS = ['args_swap', 'args_del', 'rename', 'set_string', 'args_append', 'args_pop', 'args_reverse', 'args_slice', 'args_insert', 'args_remove', 'args_clear']
 
 
 def mat_tla(ms):
     return '<< ' + ', '.join('[m |-> "str", s |-> %s]' % S(m) if isinstance(m, str) else '[m |-> "node", k |-> %d]' % m for m in ms) + ' >>'
 
 
-def mc_edits(d, name, sources, maxedits, kinds, names, strs, materials, dump=True):
+def mc_edits(d, name, sources, maxedits, kinds, names, strs, materials, dump=True, text_targets=False, rename_items=True):
     defs = ['MCSrc == {%s}' % ', '.join(S(x) for x in sources),
             'MCKinds == {%s}' % ', '.join(tlc.tla_str(k) for k in kinds),
             'MCNames == {%s}' % ', '.join(S(x) for x in names), 'MCStrs == {%s}' % ', '.join(S(x) for x in strs),
             'MCMat == {%s}' % ', '.join(mat_tla(m) for m in materials)]
     cfg = ['SPECIFICATION ESpec', 'CONSTANTS', ' ESources <- MCSrc', ' MaxEdits = %d' % maxedits, ' OpKinds <- MCKinds',
-           ' NewNames <- MCNames', ' NewStrings <- MCStrs', ' Material <- MCMat', 'INVARIANT IdsUnique']
+           ' NewNames <- MCNames', ' NewStrings <- MCStrs', ' Material <- MCMat', ' TextTargets = %s' % ('TRUE' if text_targets else 'FALSE'),
+           ' RenameItems = %s' % ('TRUE' if rename_items else 'FALSE'), 'INVARIANT IdsUnique']
     if dump:
         cfg.append('INVARIANT EDump')
     cfg += ['PROPERTY SpliceLocal', 'PROPERTY RenameLocal', 'CHECK_DEADLOCK FALSE']
@@ -32,9 +33,9 @@ def mc_edits(d, name, sources, maxedits, kinds, names, strs, materials, dump=Tru
 
 
 def explore(chk, label, sources, maxedits, kinds, names=('zz',), strs=('S t',), materials=(('X',), (1,), (5, 'Y')), timeout=3000,
-            simulate=None, depth=None):
+            simulate=None, depth=None, text_targets=False, rename_items=True):
     d = tlc.workdir('%s_%s' % (chk.pid, label))
-    mc_edits(d, 'MCE', sources, maxedits, kinds, names, strs, materials)
+    mc_edits(d, 'MCE', sources, maxedits, kinds, names, strs, materials, text_targets=text_targets, rename_items=rename_items)
     res = tlc.run(d, 'MCE', timeout=timeout, simulate=simulate, depth=depth, seed=chk.seed if simulate else None)
     chk.add_tlc(label, res, 'Edits: %d start documents, histories of %d edits over %d operation kinds%s'
                 % (len(sources), maxedits, len(kinds), ', simulate' if simulate else ''))
@@ -51,10 +52,18 @@ def expr_at(root_expr, path):
     return e
 
 
-def wrapper_of(soup, expr):
-    from TexSoup.data import TexNode
+def wrapper_of(soup, expr, path=None):
+    from TexSoup.data import TexNode, TexText
     if expr is soup.expr:
         return soup
+    if isinstance(expr, TexText) and path:
+        parent = wrapper_of(soup, expr_at(soup.expr, path[:-1])) if len(path) > 1 else soup
+        if parent is None:
+            return None
+        for c in parent.all:
+            if c.expr is expr:
+                return c
+        return None
     stack = [soup]
     while stack:
         n = stack.pop()
@@ -86,7 +95,7 @@ def apply_op(soup, op):
             if pw is None:
                 return 'unreachable-parent'
         if k not in ('insert', 'append'):
-            w = wrapper_of(soup, expr_at(soup.expr, op['path']))
+            w = wrapper_of(soup, expr_at(soup.expr, op['path']), op['path'])
             if w is None:
                 return 'unreachable-target'
         if k == 'delete':
@@ -118,6 +127,11 @@ def apply_op(soup, op):
             w.args.reverse()
         elif k == 'args_clear':
             w.args.clear()
+        elif k == 'args_swap':
+            a = w.args
+            a[0], a[op['i']] = a[op['i']], a[0]
+        elif k == 'args_del':
+            del w.args[op['i']]
         elif k == 'args_slice':
             w.args = w.args[op['i']:int(from_atoms(op['s']))]
         else:
@@ -305,6 +319,14 @@ def random_history(rng, src, length, kinds):
                 elif k == 'args_reverse':
                     if na < 2:
                         continue
+                elif k == 'args_swap':
+                    if na < 2:
+                        continue
+                    op['i'] = rng.randint(1, na - 1)
+                elif k == 'args_del':
+                    if na == 0:
+                        continue
+                    op['i'] = rng.randrange(na)
                 elif k == 'args_clear':
                     if na == 0:
                         continue
@@ -353,7 +375,7 @@ def validate(chk, traces, clause, timeout=3000):
             'MCNames == {%s, %s}' % (S('zz'), S('kk*')), 'MCStrs == {%s, %s}' % (S('S t'), S('u')),
             'MCMat == {%s}' % ', '.join(mat_tla(m) for m in (('X',), (1,), (5, 'Y'), (6,), ('p q', 2, 3)))]
     cfg = ('SPECIFICATION TSpec\nCONSTANTS\n ESources <- MCSrc\n MaxEdits = 1000\n OpKinds <- MCKinds\n NewNames <- MCNames\n'
-           ' NewStrings <- MCStrs\n Material <- MCMat\nINVARIANT Verdict\nCHECK_DEADLOCK FALSE\n')
+           ' NewStrings <- MCStrs\n Material <- MCMat\n TextTargets = TRUE\n RenameItems = TRUE\nINVARIANT Verdict\nCHECK_DEADLOCK FALSE\n')
     tlc.write_mc(d, 'MCET', 'EditsTrace', defs, cfg)
     res = tlc.run(d, 'MCET', timeout=timeout)
     chk.add_tlc('trace', res, 'EditsTrace: %d random edit histories recorded from the real tree' % len(traces))
